@@ -92,10 +92,10 @@ def run(ctx):
         files = set()
         for _ in range(rng.randint(2, 10)):
             depth = rng.randint(0, 3)
-            parts = [rng.choice(["a", "b", "ab", "a.b", "src", "x1"]) for _ in range(depth)]
+            parts = [rng.choice(["a", "b", "ab", "a.b", "src", "x1", ".a", ".ba", "a.", "..a", "-a", "_b", " a"]) for _ in range(depth)]
             for k in range(1, len(parts) + 1):
                 dirs.add("/".join(parts[:k]))
-            fn = rng.choice(["a", "b.txt", "a.txt", "a.txt.txt", "ab", "abxb", "x", "b"])
+            fn = rng.choice(["a", "b.txt", "a.txt", "a.txt.txt", "ab", "abxb", "x", "b", ".a", ".txt", "a.", "x.t.txt"])
             files.add("/".join(parts + [fn]))
         files = {f for f in files if f not in dirs}
         dirs = {d for d in dirs if d not in files}
@@ -103,8 +103,8 @@ def run(ctx):
         pl = []
         for _ in range(12):
             depth = rng.randint(0, 3)
-            segs = [rng.choice(["a", "b", "a*", "*b", "a*b", "s*", "x1", "*.*", "ab", "?"]) for _ in range(depth)]
-            segs.append(rng.choice(["*", "*.txt", "a*", "a*b", "*a*", "b.txt", "a", "*.t*t", "**"]))
+            segs = [rng.choice(["a", "b", "a*", "*b", "a*b", "s*", "x1", "*.*", "ab", "?", "*a", ".*", ".*a", "*.a", "*a*", "-*", "* a"]) for _ in range(depth)]
+            segs.append(rng.choice(["*", "*.txt", "a*", "a*b", "*a*", "b.txt", "a", "*.t*t", "**", ".*", "*a", "x"]))
             pl.append("/".join(segs))
         absolute = rng.random() < 0.3
         tcases.append({"op": "glob", "tree": entries, "patterns": pl, "absolute": absolute})
